@@ -7,8 +7,10 @@ import (
 	"io/ioutil"
 	"os"
 	"strings"
+	"sync/atomic"
 	"time"
 
+	"github.com/pingcap/kvproto/pkg/kvrpcpb"
 	"github.com/tikv/client-go/v2/testutils"
 	"github.com/tikv/client-go/v2/tikv"
 	"github.com/tikv/client-go/v2/tikvrpc"
@@ -85,7 +87,12 @@ func newEngineUnder(opts map[string]string, under func(storage.KvStorage) storag
 		}
 		testutils.BootstrapWithMultiRegions(cluster, splits...)
 		var wrap func(tikv.Client) tikv.Client
-		if opts["undet"] == "1" {
+		if rf := opts["rpcfault"]; rf != "" {
+			// rpcfault=getabort: the next point read (kv_get) of a key containing "k01" is answered with a
+			// non-retryable key error; rpcfault=scan2: the SECOND kv_scan request fails once (a fetch error in
+			// the middle of a long scan)
+			wrap = func(c tikv.Client) tikv.Client { return &rpcFaultClient{Client: c, kind: rf} }
+		} else if opts["undet"] == "1" {
 			// the answer of every commit RPC whose primary key carries the marker is lost AFTER the mock cluster has
 			// executed it: client-go then reports "execution result undetermined" (once its back-off is exhausted)
 			wrap = func(c tikv.Client) tikv.Client { return &lostCommitClient{Client: c, marker: []byte("undet")} }
@@ -125,6 +132,29 @@ func (c *lostCommitClient) SendRequest(ctx context.Context, addr string, req *ti
 		if hit {
 			_, _ = c.Client.SendRequest(ctx, addr, req, timeout)
 			return nil, errors.New("injected: connection lost after the commit was sent")
+		}
+	}
+	return c.Client.SendRequest(ctx, addr, req, timeout)
+}
+
+
+// rpcFaultClient injects single RPC-level faults between client-go and the mock TiKV cluster.
+type rpcFaultClient struct {
+	tikv.Client
+	kind  string
+	gets  int32
+	scans int32
+}
+
+func (c *rpcFaultClient) SendRequest(ctx context.Context, addr string, req *tikvrpc.Request, timeout time.Duration) (*tikvrpc.Response, error) {
+	switch {
+	case c.kind == "getabort" && req.Type == tikvrpc.CmdGet && bytes.Contains(req.Get().Key, []byte("k01")):
+		if atomic.AddInt32(&c.gets, 1) == 2 { // the first read of the key is the script's own check
+			return &tikvrpc.Response{Resp: &kvrpcpb.GetResponse{Error: &kvrpcpb.KeyError{Abort: "injected: read can not be served"}}}, nil
+		}
+	case c.kind == "scan2" && req.Type == tikvrpc.CmdScan:
+		if atomic.AddInt32(&c.scans, 1) == 2 {
+			return &tikvrpc.Response{Resp: &kvrpcpb.ScanResponse{Error: &kvrpcpb.KeyError{Abort: "injected: scan can not be served"}}}, nil
 		}
 	}
 	return c.Client.SendRequest(ctx, addr, req, timeout)
